@@ -29,7 +29,15 @@ pub enum Term {
     Err(io::ErrorKind),
 }
 
+thread_local! {
+    /// bytes the NEXT ScriptReader delivers after its terminal error has been returned once (a one-shot
+    /// transport fault: the stream continues if the decoder polls again).  Taken by `ScriptReader::new`.
+    pub static AFTER_FAULT: std::cell::RefCell<Option<Vec<u8>>> = std::cell::RefCell::new(None);
+}
+
 pub struct ScriptReader {
+    /// what follows a one-shot fault (None: the fault is persistent)
+    pub after: Option<Vec<u8>>,
     pub data: Vec<u8>,
     pub pos: usize,
     pub sched: Vec<Sched>,
@@ -43,7 +51,8 @@ pub struct ScriptReader {
 
 impl ScriptReader {
     pub fn new(data: Vec<u8>, sched: Vec<Sched>, term: Term) -> Self {
-        ScriptReader { data, pos: 0, sched, sidx: 0, term, requests: Vec::new(), pendings: 0, drop_requested: false }
+        let after = AFTER_FAULT.with(|a| a.borrow_mut().take());
+        ScriptReader { after, data, pos: 0, sched, sidx: 0, term, requests: Vec::new(), pendings: 0, drop_requested: false }
     }
 }
 
@@ -74,7 +83,14 @@ impl AsyncRead for ScriptReader {
                 if avail == 0 {
                     return match me.term {
                         Term::Eof => Poll::Ready(Ok(())),
-                        Term::Err(k) => Poll::Ready(Err(k.into())),
+                        Term::Err(k) => {
+                            if let Some(more) = me.after.take() {
+                                // one-shot fault: the error is returned once, then the stream goes on
+                                me.data.extend_from_slice(&more);
+                                me.term = Term::Eof;
+                            }
+                            Poll::Ready(Err(k.into()))
+                        }
                     };
                 }
                 let mut n = avail.min(buf.remaining());
